@@ -1876,11 +1876,13 @@ pub fn verify_compatiblity<T: AbiExportable + ?Sized>(path: &str) -> Result<(), 
         let def = T::get_definition(version);
         let schema_file_name = Path::join(Path::new(path), format!("savefile_{}_{}.schema", def.name, version));
         if std::fs::metadata(&schema_file_name).is_ok() {
-            let previous_schema = load_file_noschema(&schema_file_name, 1)?;
+            // Files written by older versions of this function carry data version 1
+            // (without receiver type and async flag); they are still accepted.
+            let previous_schema = load_file_noschema(&schema_file_name, 2)?;
 
             def.verify_backward_compatible(version, &previous_schema, false)?;
         } else {
-            save_file_noschema(&schema_file_name, 1, &def)?;
+            save_file_noschema(&schema_file_name, 2, &def)?;
         }
     }
     Ok(())
